@@ -75,7 +75,7 @@ func Build(modRoot string, srcs []Src) (*Batch, error) {
 		if err := b.writeMain(names); err != nil {
 			return nil, err
 		}
-		cmd := exec.Command("go", "build", "-tags", "verif", "-gcflags=-e", "-o", b.Bin, "./verifsim/gen/"+id)
+		cmd := exec.Command("go", "build", "-p", innerP(), "-tags", "verif", "-gcflags=-e", "-o", b.Bin, "./verifsim/gen/"+id)
 		cmd.Dir = modRoot
 		var out bytes.Buffer
 		cmd.Stdout, cmd.Stderr = &out, &out
@@ -128,7 +128,7 @@ func (b *Batch) writeMain(names []string) error {
 		obj[s.Name] = s.Object
 	}
 	for _, n := range names {
-		fmt.Fprintf(&sb, "\tengbrt.Register(&engbrt.Parser{Name: %q, Object: %v, New: %s.VNew, Init: %s.VInit, Parse: %s.VParse, Action: %s.VAction, Translate: %s.VTranslate, Trace: %s.VTrace, ErrAcc: %s.VErrAcc,\n\t\tSetHooks: func(n func() (int, int), r func(int)) { %s.HookNext = n; %s.HookRec = r }})\n",
+		fmt.Fprintf(&sb, "\tengbrt.Register(&engbrt.Parser{Name: %q, Object: %v, New: %s.VNew, Init: %s.VInit, Parse: %s.VParse, Action: %s.VAction, Translate: %s.VTranslate, Trace: %s.VTrace, ErrAcc: %s.VErrAcc,\n\t\tSetHooks: func(n func(int) (int, int), r func(int)) { %s.HookNext = n; %s.HookRec = r }})\n",
 			n, obj[n], n, n, n, n, n, n, n, n, n)
 	}
 	sb.WriteString("\tengbrt.Main()\n}\n")
@@ -242,4 +242,55 @@ func RunTS(verifDir, scratch string, files map[string]string, jobs []engbrt.Job)
 		return nil, fmt.Errorf("node runner output: %v", err)
 	}
 	return res, nil
+}
+
+// BuildOnly compiles the given Go sources as packages (no driver): used by C16, where the epilogue is the minimal one.
+// It returns the compiler messages per failing package and go vet's complaints (informational).
+func BuildOnly(modRoot string, srcs []Src) (compErrs map[string]string, vet map[string]string, dir string, err error) {
+	batchCounter++
+	id := fmt.Sprintf("c%d_%d", os.Getpid(), batchCounter)
+	dir = filepath.Join(modRoot, "verifsim", "gen", id)
+	for _, s := range srcs {
+		d := filepath.Join(dir, s.Name)
+		if e := os.MkdirAll(d, 0o755); e != nil {
+			return nil, nil, dir, e
+		}
+		if e := os.WriteFile(filepath.Join(d, "parser.go"), []byte(s.Text), 0o644); e != nil {
+			return nil, nil, dir, e
+		}
+	}
+	compErrs, vet = map[string]string{}, map[string]string{}
+	run := func(args ...string) string {
+		cmd := exec.Command("go", args...)
+		cmd.Dir = modRoot
+		var out bytes.Buffer
+		cmd.Stdout, cmd.Stderr = &out, &out
+		cmd.Run()
+		return out.String()
+	}
+	msg := run("build", "-p", innerP(), "-gcflags=-e", "./verifsim/gen/"+id+"/...")
+	collect := func(msg string, into map[string]string) {
+		for _, ln := range strings.Split(msg, "\n") {
+			m := errLine.FindStringSubmatch(ln)
+			if m == nil {
+				continue
+			}
+			if len(into[m[1]]) < 1500 {
+				into[m[1]] += ln + "\n"
+			}
+		}
+	}
+	collect(msg, compErrs)
+	if strings.TrimSpace(msg) != "" && len(compErrs) == 0 {
+		return nil, nil, dir, fmt.Errorf("go build failed without naming a generated package:\n%s", tail(msg, 2000))
+	}
+	return compErrs, vet, dir, nil
+}
+
+// innerP: parallelism of a go build started by one of N worker processes (the workers already occupy the cores).
+func innerP() string {
+	if v := os.Getenv("VERIF_INNER_P"); v != "" {
+		return v
+	}
+	return "3"
 }
